@@ -264,6 +264,34 @@ def run(ctx):
                         bad = 'component %d is not %s' % (i, '(M(p,1)).xyz / (M(p,1)).w' if mname.startswith('project') else 'M(p,%s).xyz' % ('0' if 'vector' in mname else '1'))
                         break
                 done('R-XFORM', name, bad, it)
+        # 2D homogeneous transforms of the 3x3 types: M (p, 1).xy and M (p, 0).xy
+        for name, it in api_roots(F):
+            st = (it.get('self_ty') or '').lstrip('&')
+            tname = st.rsplit('::', 1)[-1]
+            mname = it.get('name') or ''
+            if it.get('trait') or tname not in ('Mat3', 'Mat3A', 'DMat3') or mname not in ('transform_point2', 'transform_vector2'):
+                continue
+            body = F.body(it['key'])
+            argtys = body['locals'][1:1 + body['argc']]
+            rty = body['locals'][0]
+            r = H.run(it['key'])
+            if r.abort or r.panics:
+                done('R-XFORM', name, r.abort or 'reachable panic %r' % (r.panics[0],), it)
+                continue
+            alg = nf.Algebra()
+            S = Spec(alg)
+            e, mi = M.arg_entries(r, 0, argtys[0])
+            P = {k: alg.nf(v) for k, v in e.items()}
+            p = [alg.nf(a) for a in ArgView(F, r, 1, argtys[1]).lanes[:2]]
+            w_in = S.c(0) if 'vector' in mname else S.c(1)
+            lanes = value_lanes(F, r.ret, rty)
+            bad = None
+            for i in range(2):
+                exp = S.add(S.add(S.mul(P[(0, i)], p[0]), S.mul(P[(1, i)], p[1])), S.mul(P[(2, i)], w_in))
+                if lanes is None or not S.eq(alg.nf(lanes[i]), exp):
+                    bad = 'component %d is not M (p, %s).xy' % (i, '0' if 'vector' in mname else '1')
+                    break
+            done('R-XFORM', name, bad, it)
         quat_views(ctx, cfg, F, H, M, done)
         ctx.floor('quaternion view instances (%s)' % cfg, counts.get('R-VIEW-Q', 0), 8)
         ctx.floor('view matrix instances (%s)' % cfg, counts.get('R-VIEW', 0), 24)
